@@ -10,7 +10,7 @@ def harnesses():
     for b in [1, 2, 3, 7, 8]:
         for w, fn in enumerate(names):
             out.append(H("c13_pow_narrow_%d_%s" % (b, fn), "C13", "c13::pow_narrow::<%d,%d>" % (b, w), unwind=b + 3,
-                         tier="quick" if ((b == 1 and w in (0, 2)) or (b == 3 and w == 2)) else "thorough", timeout=1800,
+                         tier="quick" if (b == 1 or (b == 3 and w == 2)) else "thorough", timeout=1800,
                          inst="Uint<%d,%d>" % (b, nlimbs(b)), role="c13::pow_narrow." + fn,
                          domain="every (base, exponent) pair of the width; real multipliers", free_bits=2 * b, fns=[fn],
                          covers_required=(["overflows"] if b >= 2 else []) + ["zero-to-zero"]))
